@@ -322,7 +322,7 @@ Theorem C02_planar :
      = 1 + fold_right Rplus 0 (map (fun i => v i * u i) (seq 0 n))) /\
   (forall (w u0 : list R) (b : R) (x : list R), let n := length w in
      length u0 = n -> length x = n ->
-     let u := planar_u ROps w u0 in
+     let u := planar_u ROps None w u0 in
      let act := planar_act ROps None (dot ROps x w + b) in
      let psi := vscale ROps (1 - act * act) w in
      let J := fun i j => (if Nat.eqb i j then 1 else 0) + nth i u 0 * nth j psi 0 in
@@ -331,7 +331,7 @@ Theorem C02_planar :
      planar_ld_fwd ROps None w u0 b x = ln (Rabs (detF n J)) /\ detF n J = 1 + dot ROps u psi) /\
   (forall (s : R) (w u0 : list R) (b : R) (x : list R), let n := length w in
      length u0 = n -> length x = n -> 0 < s -> dot ROps x w + b <> 0 ->
-     let u := planar_u ROps w u0 in
+     let u := planar_u ROps (Some s) w u0 in
      let act := planar_act ROps (Some s) (dot ROps x w + b) in
      let psi := vscale ROps (if Rltb act 0 then s else 1) w in
      let J := fun i j => (if Nat.eqb i j then 1 else 0) + nth i u 0 * nth j psi 0 in
@@ -342,14 +342,14 @@ Proof. exact c02_planar. Qed.
 Print Assumptions C02_planar.
 
 (* the determinant 1 + u.psi is POSITIVE (so the log is not a totalised ln 0) for the tanh activation
-   and for leaky_relu slopes 0 < s <= 1, whenever w <> 0 (w.w > 0): this is what get_act_scale
-   ensures (w.u_hat = -1 + log(1 + softplus(w.u)) > -1).  The bound s <= 1 is necessary: for s > 1
-   and w.u_hat < -1/s the determinant is <= 0 on the half-space w.x + b < 0 and the map is not
-   injective (witnessed on the implementation; belongs to C01). *)
+   and for leaky_relu with ANY negative slope s > 0, whenever w <> 0 (w.w > 0): this is what
+   get_act_scale ensures -- w.u_hat = m(w.u) > -1 for tanh, m(w.u) / max(1, s) > -1/max(1, s) for
+   leaky relu, m(t) = -1 + log(1 + softplus t).  (Before fix D7 the division by max(1, s) was missing
+   and the statement failed for s > 1: C01_planar_slope_gt1_refuted on planar_u_old.) *)
 Theorem C02_planar_det_pos : forall (ns : option R) (w u0 : list R) (b : R) (x : list R),
   length u0 = length w -> 0 < dot ROps w w ->
-  match ns with Some s => 0 < s <= 1 | None => True end ->
-  let u := planar_u ROps w u0 in
+  match ns with Some s => 0 < s | None => True end ->
+  let u := planar_u ROps ns w u0 in
   let act := planar_act ROps ns (dot ROps x w + b) in
   let psi := match ns with
              | Some s => vscale ROps (if Rltb act 0 then s else 1) w
